@@ -45,6 +45,9 @@ func ids(ms []handler.Message) []int {
 type SeqCase struct {
 	Cap int   `json:"capacity"`
 	Ops []int `json:"ops"`
+	// StartIndex > 0: the queue's exported running index is set to this value first, as if the process
+	// had already added that many messages (long uptime; values around 2^31 and 2^32).
+	StartIndex int `json:"start_index"`
 }
 
 func checkSeq(c SeqCase, o *stats.Obs) error {
@@ -53,6 +56,10 @@ func checkSeq(c SeqCase, o *stats.Obs) error {
 		return nil
 	}
 	q := cq.NewCircularQueue(c.Cap)
+	if c.StartIndex > 0 {
+		q.NextIndex = c.StartIndex
+		o.Class("pre-aged-index")
+	}
 	var model []int
 	next := 1
 	evicted, snapAfterEvict := false, false
@@ -73,10 +80,19 @@ func checkSeq(c SeqCase, o *stats.Obs) error {
 			}
 			continue
 		}
-		got := ids(q.GetMessages())
+		snap := q.GetMessages()
+		got := ids(snap)
 		if fmt.Sprint(got) != fmt.Sprint(append([]int{}, model...)) {
 			o.Key = "wrong-snapshot"
 			return fmt.Errorf("capacity %d, after %d additions (step %d): snapshot %v, want the last %d added in order %v", c.Cap, next-1, step, got, len(model), model)
+		}
+		// The snapshot belongs to the caller: whatever the caller does with it (here: reverse it and blank the
+		// first element) must not show in the queue or in later snapshots.
+		for i, j := 0, len(snap)-1; i < j; i, j = i+1, j-1 {
+			snap[i], snap[j] = snap[j], snap[i]
+		}
+		if len(snap) > 0 {
+			snap[0] = handler.Message{MessageType: -7}
 		}
 		if evicted {
 			snapAfterEvict = true
@@ -201,6 +217,10 @@ func genLong(t *rapid.T) SeqCase {
 		c.Ops = append(c.Ops, k)
 	}
 	c.Ops = append(c.Ops, -1)
+	if strconv.IntSize == 64 && rapid.IntRange(0, 5).Draw(t, "preAged") == 3 {
+		base := rapid.SampledFrom([]int{1 << 31, 1 << 32, 1 << 15, 1 << 16}).Draw(t, "ageBase")
+		c.StartIndex = base - rapid.IntRange(1, 30).Draw(t, "ageBefore")
+	}
 	return c
 }
 
